@@ -160,7 +160,7 @@ def parse_result(lines):
 class Worker:
     """one 'nsim serve' process; run(plan) -> Result"""
 
-    def __init__(self, variant='asan', wall_timeout=40.0, exe='nsim'):
+    def __init__(self, variant='asan', wall_timeout=120.0, exe='nsim'):
         self.variant = variant; self.wall_timeout = wall_timeout; self.p = None; self.exe = exe
 
     def start(self):
@@ -504,7 +504,8 @@ def run_check(propmod, prop, tier, verif_seed, n_runs, variant='asan', jobs=None
             r1 = run_plan_once(propmod, small, variant); r2 = run_plan_once(propmod, small, variant)
             v1 = [v for v in propmod.check(small, r1) if v.cls == cls]
             v2 = [v for v in propmod.check(small, r2) if v.cls == cls]
-            if not v1 or not v2 or r1.hash != r2.hash:
+            # a run cut by the wall-clock alarm stops at an arbitrary event: its log cannot be hash-stable, the class must reproduce
+            if not v1 or not v2 or (r1.hash != r2.hash and not cls.endswith('/hang/wallclock')):
                 sys.stderr.write('HARNESS: violation %s (seed index %d) does not replay deterministically\n' % (cls, i))
                 sys.stderr.write('  original report: %s\n' % json.dumps(main[i]['violations'])[:1500])
                 try:
